@@ -128,6 +128,10 @@ def make_rep(kind, random, grammar=None, lineage_events=None):
     raise ValueError(kind)
 
 
+class TransientFailure(Exception):
+    """what a fitness function raises when an evaluation times out / a resource is briefly unavailable"""
+
+
 class FitnessProbe:
     """fitness function + invocation log.  mode 'scripted': the k-th invocation returns hist[k % len];
     mode 'table': the value is table[prog_value(program) % len]."""
@@ -139,7 +143,12 @@ class FitnessProbe:
         self.k = 0
         self.single = single
 
+    fail_at = ()            # invocation numbers (0-based) at which the fitness function raises instead of returning
+
     def __call__(self, ph):
+        if self.k in self.fail_at:
+            self.k += 1
+            raise TransientFailure(f"fitness invocation {self.k - 1} failed")
         if self.mode == "scripted":
             v = self.values[self.k % len(self.values)]
         else:
@@ -228,7 +237,8 @@ class Ids:
         return self.map[k]
 
 
-INF_TOKEN = 10 ** 9     # stands for float("inf") in histories and events (order is preserved: every other value is small)
+INF_TOKEN = 2147483000  # stands for float("inf") in histories and events (order is preserved: every other value is smaller;
+                        # TLC's integers are 32-bit)
 
 
 def fv(x):
